@@ -979,7 +979,14 @@ def type_check_args(
     new_args: list[ast.expr] = []
     comptime_args = iter(func_ty.comptime_args)
     for inp, func_inp in zip(inputs, func_ty.inputs, strict=True):
-        a, s = ExprChecker(ctx).check(inp, func_inp.ty.substitute(subst), "argument")
+        # The solution found so far can be triangular (a variable solved in terms of
+        # another one that is solved itself), so apply it until nothing changes
+        expected = func_inp.ty
+        for _ in range(len(subst) + 1):
+            if (applied := expected.substitute(subst)) == expected:
+                break
+            expected = applied
+        a, s = ExprChecker(ctx).check(inp, expected, "argument")
         subst |= s
         if InputFlags.Inout in func_inp.flags and isinstance(a, PlaceNode):
             a.place = check_place_assignable(
